@@ -113,7 +113,11 @@ def Function(name, args):
 @function([types.Any], bool, name='bool')
 def bool_(x):
     """Convert to bool value."""
-    return bool(x)
+    try:
+        return bool(x)
+    except NotImplementedError:
+        # Inventory objects refuse to be used as truth values.
+        return None
 
 
 @function([int], int, name='int')
